@@ -2,6 +2,7 @@ package sim
 
 import (
 	"fmt"
+	metav1 "k8s.io/apimachinery/pkg/apis/meta/v1"
 	"runtime/debug"
 	"sort"
 	"strings"
@@ -522,12 +523,19 @@ func (c *Cluster) UpdateSet(ns, name string, f func(*asv1.StatefulSet)) bool {
 }
 
 // MarkSetDeleting sets a deletion timestamp on the set (foreground / finalizer deletion).
-func (c *Cluster) MarkSetDeleting(ns, name string) bool {
+func (c *Cluster) MarkSetDeleting(ns, name string) bool { return c.MarkSetDeletingAt(ns, name, false) }
+
+// MarkSetDeletingAt: with ahead, the deletion timestamp lies ahead of the controller's wall clock (the API
+// server's clock runs ahead, or a grace period is in force) - the set is being deleted all the same.
+func (c *Cluster) MarkSetDeletingAt(ns, name string, ahead bool) bool {
 	s := c.Set(ns, name)
 	if s == nil || s.DeletionTimestamp != nil {
 		return false
 	}
 	ts := c.Tick()
+	if ahead {
+		ts = metav1.Unix(4102444800, 0) // 2100-01-01
+	}
 	s.DeletionTimestamp = &ts
 	s.ResourceVersion = c.nextRV()
 	c.tracker.Update(GVRASts, s, ns)
@@ -553,6 +561,8 @@ type Record struct {
 	ListedPods bool
 	// LookupFailed: an injected failure of a claim cache lookup happened during the reconcile
 	LookupFailed bool
+	// SetReads: every read of a set from the cache during the reconcile, in order
+	SetReads []SetRead
 
 	Actions  []*Action
 	Err      error
@@ -683,6 +693,7 @@ func (c *Cluster) reconcile(key string, mode int) *Record {
 	c.Log = nil
 	c.snapTaken = false
 	c.lookupFailed = false
+	c.setReads = nil
 	c.logging = true
 	func() {
 		defer func() {
@@ -740,6 +751,7 @@ func (c *Cluster) reconcile(key string, mode int) *Record {
 	c.logging = false
 	rec.ListedPods = c.snapTaken
 	rec.LookupFailed = c.lookupFailed
+	rec.SetReads = c.setReads
 	if c.snapTaken {
 		rec.CachePods = c.snap
 		c.snap = nil
@@ -781,7 +793,7 @@ func (c *Cluster) RunLogged(f func()) (actions []*Action, crashed bool, panicked
 // Clone deep-copies API state and caches into a fresh cluster with its own controller.
 func (c *Cluster) Clone() *Cluster {
 	n := New()
-	n.clock, n.rv, n.uidN = c.clock, c.rv, c.uidN
+	n.clock, n.rv, n.uidN, n.uidTag = c.clock, c.rv, c.uidN, c.uidTag
 
 	n.ListPerm = c.ListPerm
 	for _, gk := range []struct {
